@@ -64,12 +64,35 @@ func modelUnmarshal(b []byte, val interface{}) (rest []byte, err error) {
 	case *pkix.RevokedCertificate:
 		kind = "entry"
 		// like encoding/asn1: an OPTIONAL field that is absent in the input is left untouched
-		if len(b) > 0 && b[len(b)-1]&1 == 1 {
-			v.Extensions = []pkix.Extension{{Id: oidIDP}}
+		// (when present, the entry extension is a reasonCode whose value bytes are the - symbolic - content
+		// bytes of the entry: keyCompromise, certificateHold, removeFromCRL ... every entry is handed over)
+		if h := hdrLenSafe(b); h > 0 && b[h]&1 == 1 { // presence: low bit of the first content byte
+			val := b
+			if len(b) >= 3 {
+				val = b[len(b)-3:]
+			}
+			v.Extensions = []pkix.Extension{{Id: oidReasonCode, Value: val}}
 		}
 	case *[]pkix.Extension:
 		kind = "exts"
 		*v = extsModel
+	case *asn1.Enumerated:
+		// DER ENUMERATED of one content octet (reason codes): decoded exactly, anything else is an error
+		kind = "enum"
+		if len(b) == 3 && b[0] == 0x0a && b[1] == 0x01 {
+			*v = asn1.Enumerated(b[2])
+		} else {
+			wins = append(wins, win{kind, b, val})
+			return nil, verifrt.NewError("asn1: structure error (ENUMERATED)")
+		}
+	case *int:
+		kind = "int"
+		if len(b) == 3 && (b[0] == 0x0a || b[0] == 0x02) && b[1] == 0x01 {
+			*v = int(b[2])
+		} else {
+			wins = append(wins, win{kind, b, val})
+			return nil, verifrt.NewError("asn1: structure error (INTEGER)")
+		}
 	}
 	wins = append(wins, win{kind, b, val})
 	if idx == unmarshalFails {
@@ -175,6 +198,29 @@ func sym(label string, n int) []byte {
 	return verifrt.NondetBytes(label, n)
 }
 
+// hdrLen: header length of a TLV whose header bytes are concrete (2, 3 or 4)
+func hdrLen(b []byte) int {
+	if b[1] < 0x80 {
+		return 2
+	}
+	return 2 + int(b[1]&0x7f)
+}
+
+// hdrLenSafe: header length if the buffer holds a header and at least one content byte, else 0 (hostile input)
+func hdrLenSafe(b []byte) int {
+	if len(b) < 3 {
+		return 0
+	}
+	h := 2
+	if b[1] >= 0x80 {
+		h = 2 + int(b[1]&0x7f)
+	}
+	if h >= len(b) {
+		return 0
+	}
+	return h
+}
+
 func eqBytes(a, b []byte) bool { return verifrt.BytesEqual(a, b) }
 
 var oidTable = []asn1.ObjectIdentifier{
@@ -191,4 +237,5 @@ var (
 	oidCRLNum = asn1.ObjectIdentifier{2, 5, 29, 20}
 	oidDelta  = asn1.ObjectIdentifier{2, 5, 29, 27}
 	oidIDP    = asn1.ObjectIdentifier{2, 5, 29, 28}
+	oidReasonCode = asn1.ObjectIdentifier{2, 5, 29, 21}
 )
